@@ -819,6 +819,31 @@ class CrcPdu(CrossPart):
             return o, None, None
         return o, getattr(o, ok), (fields_of(o, drop) if fields else None)
 
+    def route_differs(self, bits: bitarray, o):
+        """the receiver's other route to the same indicator (coverage round: from_bits / convert of the rate blocks were never executed):
+        Burst.extract_data decodes a rate block UNTYPED (from_bits) and the block is then converted to the type the data header announced
+        (convert); that object must tell the same truth about the received bits as the typed decoder.  Returns a description or None."""
+        if self.kind not in self.L.rates:
+            return None
+        cls, types, n = self.L.rates[self.kind]
+        t = types.ConfirmedLastBlock if self.last else types.Confirmed
+        u = call(cls.from_bits, bitarray(bits))
+        v = u if is_err(u) else call(u.convert, t)
+        if is_err(o) or is_err(v):
+            return None if (is_err(o) and is_err(v)) else f"typed decode: {o if is_err(o) else 'object'}, from_bits().convert(): {v if is_err(v) else 'object'}"
+        a, b = fields_of(o, ()), fields_of(v, ())
+        if a != b:
+            d = {k: [a.get(k), b.get(k)] for k in set(a) | set(b) if a.get(k) != b.get(k)}
+            return f"from_bits(b).convert({t.name}) differs from from_bits_typed(b, {t.name}) in {json.dumps(d, default=str)[:300]}"
+        return None
+
+    def route_check(self, tag, bits: bitarray, o):
+        why = self.route_differs(bits, o)
+        self.ctx.count(f"{tag}:untyped-then-convert")
+        if why:
+            self.ctx.fail("route-differs", {"pdu": self.kind, "last": self.last, "route": barg(bits)},
+                          f"{tag}: the indicator / fields depend on the route by which the block was decoded: {why}", expected="the same object", actual=why)
+
     def width(self):
         return {"dh": 96, "pi": 96, "slc": 36, "r12": 96, "r34": 144, "r1": 192}[self.kind]
 
@@ -915,6 +940,8 @@ class CrcPdu(CrossPart):
             c = self.corr(r, q)
             if c:
                 pairs.append(c)
+            if self.kind in self.L.rates:
+                self.route_check(tag, r, q)
         if is_err(q):
             ctx.count(f"{tag}:decode-error")
             return "error"
@@ -966,6 +993,8 @@ class CrcPdu(CrossPart):
                 continue
             if call(lambda: p.as_bits()) != word:
                 ctx.fail("selfcheck", {"pdu": kind, "last": self.last, "sent": sent}, f"a library-serialised {tag} PDU does not re-serialise to the same bits", expected=sent, actual=barg(call(lambda: p.as_bits())))
+            if kind in self.L.rates:
+                self.route_check(tag, word, p)
             # ---- corruption within the guaranteed class
             level = (2 if ctx.thorough() else 1) if i < exhaustive_first else (1 if ctx.thorough() and i < 3 * exhaustive_first else 0)
             for pat in self.patterns(ctx.rng, level):
@@ -2149,6 +2178,14 @@ def replay(obj):
         lines = [f"{kind}.dec {inp['received']}"]
     elif kind in ("dh", "pi", "slc", "r12", "r34", "r1"):
         pdu = CrcPdu(_Null(), L, kind, bool(inp.get("last")))
+        if "route" in inp:
+            o, ind, _ = pdu.parse(bitarray(inp["route"]))
+            why = pdu.route_differs(bitarray(inp["route"]), o)
+            print(f"typed decode of {inp['route']}: indicator {ind if not is_err(o) else o}; untyped decode then convert: {why or 'the same object'}")
+            still = int(bool(why))
+            c = pdu.corr(bitarray(inp["route"]), o)
+            if c:
+                lines = [c[0]]
         if "sent" in inp and inp["sent"] != "-":
             p, ind, f0 = pdu.parse(bitarray(inp["sent"]))
             print(f"sent     {inp['sent']}: indicator {ind if not is_err(p) else p}")
